@@ -126,3 +126,9 @@ ADDENDA2 = {
 for _k, _x in ADDENDA2.items():
     _a = CLAIMED[_k]
     CLAIMED[_k] = (_a[0], _a[1] + _x, _a[2], _a[3])
+
+# additions after the fifth wave
+ADDENDA3 = {'C02': ' Operands are also juxtaposed with parenthesised groups (2 (3) 4).', 'C03': ' Names are also re-bound to values that print like the old one.', 'C05': ' A fifth of the cases run under the language tag tr; money also in currencies without a shipped rate.', 'C06': " A second sub-check converts inside a sum ('m1 +- m2 in C3', m2 also held in a name); an operand is also held in a name (metamorphic step).", 'C07': " Unit options may be given partially; a third sub-check prints the COMPUTED results of every other generator's lines and compares them with the rule applied to the AST value.", 'C08': ' The printed forms of one value under two conventions differ in the separators only; each text is also read first under the other convention on the re-configured calculator.', 'C09': " The comma of 'Month day, year' may stand apart; only the count of a duration may be held in a name.", 'C10': ' Only the count of a part may be held in a name; a second sub-check puts several conversions on one line.', 'C11': ' A third sub-check takes differences between times of different zones (one side explicit) and of a time moved by a duration first; the time is also held in a name.', 'C12': ' A quantity is also held in a name (metamorphic step).', 'C13': ' Literals are also zero-padded (up to 70 digits); N may be a percentage phrase over a based literal.', 'C16': ' Programs with two names of which one is a word-prefix of the other; a definition as the last line; a comment glued to the last token.', 'C17': ' Sub-checks: a based literal with anything before and after it is one Number token; an operator character inside the pattern of a registered rule stays an Operator token.', 'C18': ' delete_rule is also called with the function names of built-in rules; family names carry capitals.', 'C19': ' A date directly followed by a written duration (no operator) is compared across the languages.'}
+for _k, _x in ADDENDA3.items():
+    _a = CLAIMED[_k]
+    CLAIMED[_k] = (_a[0], _a[1] + _x, _a[2], _a[3])
